@@ -83,6 +83,7 @@ def to_symbolic_model(model: Model) -> SymbolicModel:
     )
 
     symbols: dict[str, sympy.Symbol | sympy.Expr] = variables | parameters | data  # type: ignore
+    symbols["time"] = sympy.Symbol("time")
 
     # Insert derived and reactions into symbols, in the order the model evaluates
     # them, so that each one only refers to expressions that are already known
